@@ -35,6 +35,8 @@ type vProxy struct {
 	listCalls  int
 	listFailEmptyBody bool
 	settle     bool
+	onList     func()
+	listFailFn func() bool
 	garbageList bool
 	requests   map[string][]byte        // wire form of the stored client requests
 	user       map[string]string        // asserted user per request
@@ -66,9 +68,15 @@ func (p *vProxy) RoundTrip(req *http.Request) (*http.Response, error) {
 	case strings.HasSuffix(req.URL.Path, utils.PendingPath):
 		i := p.listCalls
 		p.listCalls++
+		if p.onList != nil {
+			p.onList()
+		}
 		if p.settle && rt.Bool("workersFinishBeforeList"+rt.Itoa(i)) {
 			// timing of earlier fetches and uploads relative to this poll: they complete first
 			rt.Quiesce()
+		}
+		if p.listFailFn != nil && p.listFailFn() {
+			return vPlain(503, "", nil), nil
 		}
 		if i < len(p.listFail) && p.listFail[i] {
 			if p.listFailEmptyBody {
